@@ -166,17 +166,25 @@ class UnifiedRTFEncoder(EncodingStrategy):
     def encode(self, document: Any) -> str:
         """Encode the document using the unified pipeline."""
 
-        # 1. Figure-only handling
-        if document.df is None:
-            return self._encode_figure_only(document)
-
-        # 2. Multi-section handling
-        if isinstance(document.df, list):
-            return self._encode_multi_section(document)
-
-        # 3. Standard Pipeline
+        # Color indices are resolved against this document's own color table
+        # on every encoding path; the context never outlives the call.
         color_service.set_document_context(document)
+        try:
+            # 1. Figure-only handling
+            if document.df is None:
+                return self._encode_figure_only(document)
 
+            # 2. Multi-section handling
+            if isinstance(document.df, list):
+                return self._encode_multi_section(document)
+
+            # 3. Standard Pipeline
+            return self._encode_single_section(document)
+        finally:
+            color_service.clear_document_context()
+
+    def _encode_single_section(self, document: Any) -> str:
+        """Encode a single-table document."""
         page_rtf_chunks = self._encode_body_section(
             document, document.df, document.rtf_body
         )
@@ -205,7 +213,6 @@ class UnifiedRTFEncoder(EncodingStrategy):
             ]
         )
 
-        color_service.clear_document_context()
         return result
 
     def _apply_data_post_processing(self, pages, processed_df, rtf_body):
